@@ -26,6 +26,18 @@ CHECKS = {
  "C12": ("exploration", "operation-history monitor vs BTreeSet + exhaustive 6-id sub-space + set-algebra oracle on all term pairs",
          "HpoGroup insertion histories (return values, duplicates, sizes across the inline limit of 30), every constructor, |, &, + id, | id in all ownership variants are checked against a BTreeSet; all 4096 ordered subset pairs of a 6-id universe are enumerated in every run; ancestor queries and their iterator twins are compared with the set algebra of observed ancestor sets for all ordered pairs. Thorough adds Miri and ASan runs of the group histories (smallvec is the unsafe code underneath).",
          "all_union_ancestor_ids: both documented readings accepted, one per run", "DESIGN.md §5 C12"),
+ "C05": ("exploration", "combiner model (f64) on injected user similarity matrices + call-log monitor of the caching adaptor",
+         "All 169 matrix shapes r,c in 0..=12 with hostile contents are fed to the three combiners and the row/column iterators in every run; set pairs of sizes 0..12 are compared through HpoSet::similarity / GroupSimilarity with a seeded asymmetric user Similarity that logs its invocations, in both argument orders and through one shared CachedSimilarity.",
+         "finite matrix values; 1e-4 relative tolerance for f32 results", "DESIGN.md §5 C05"),
+ "C06": ("exploration", "enrichment event log checked online (pmf recurrence) and offline (exact rational Python checker)",
+         "Every record returned by gene/OMIM/ORPHA enrichment is logged as (kind,N,K,n,k,count,p,fold) and compared with an independent f64 recurrence in-process and with exact integer arithmetic offline; result sets, counts, fold change, [0,1] range and monotonicity in k are asserted; populations below/at/above the 170-entry factorial table and the complete (N,K,n,k) lattice for N<=12 (quick) / 24 (thorough) are covered.",
+         "samples are duplicate-free subsets of the background; python3 standard library only", "DESIGN.md §5 C06"),
+ "C10": ("exploration", "complete key-space sweep per generated ontology against the set of added ids; naive substring model for name search",
+         "For every generated term set Ontology::hpo is queried for all 10^7+1 ids plus sampled ids up to u32::MAX; iteration/len, record lookups by id for present/absent/cross-kind ids, gene_by_name and the OMIM name searches are compared with the facts.",
+         "exhaustive in the key dimension per ontology, ontologies sampled; ids >= 10^7 may be refused by a panic at insertion (outside the statement)", "DESIGN.md §5 C10"),
+ "C20": ("exploration", "exhaustive id-space enumeration + totality monitor (catch_unwind) with a grammar oracle over enumerated and seeded strings",
+         "Every id 0..10^7 and the u32 borders are rendered, parsed back and converted through bytes in every run (exhaustive for that half); try_from(&str) is driven with all 66430 strings of <=5 symbols over a 9-symbol alphabet incl. 2/3/4-byte characters, numeric borders and seeded longer strings under a panic monitor.",
+         "a leading '+' is not judged; From<String>/PartialEq<&str> are documented to panic and excluded", "DESIGN.md §5 C20"),
 }
 
 NOT_YET = {}
